@@ -659,9 +659,10 @@ def nest_form(facts, body, rounds=24, yields=True):
         cur3, inl = resolve_closure_calls(facts, cur3)
         cur3.inlined = sorted(set(getattr(cur3, 'inlined', [])) | set(inl))
         cur = cur3
-    if cur is body and (fused or did_yield):
-        pass
     if cur is not body:
         cur.fused = fused
         cur.yields = did_yield
+    # values that travel together in a struct / tuple become one local per field (pk/sroa.py)
+    from .sroa import sroa
+    cur = sroa(facts, cur)
     return cur
